@@ -180,12 +180,21 @@ func (w *c11World) client() *Client {
 }
 
 // one enqueue-producing operation, followed by the frame it causes on the wire
-func (w *c11World) op(name string, direct bool) {
+func (w *c11World) op(name string, direct bool) { w.opw(name, direct, false) }
+
+// window = true: inside the connect window the operation may be impossible (client not in
+// the hub) or have no effect (publication refused): then nothing happened, no labels
+func (w *c11World) opw(name string, direct bool, window bool) {
 	before := w.wireLen()
 	c := w.client()
 	if c == nil {
-		w.fail("client not in the hub for %s", name)
-		return
+		if !window {
+			w.fail("client not in the hub for %s", name)
+			return
+		}
+		if name != "pub0" {
+			return
+		}
 	}
 	switch name {
 	case "send":
@@ -204,6 +213,15 @@ func (w *c11World) op(name string, direct bool) {
 		}
 	case "rpc":
 		_ = w.conn.WriteMessage(websocket.TextMessage, []byte(`{"id":2,"rpc":{"method":"m","data":{}}}`))
+	}
+	if window {
+		deadline := time.Now().Add(40 * time.Millisecond)
+		for w.wireLen() == before && time.Now().Before(deadline) {
+			time.Sleep(200 * time.Microsecond)
+		}
+		if w.wireLen() == before {
+			return
+		}
 	}
 	if direct {
 		w.emit("ADirect")
@@ -257,7 +275,7 @@ func (w *c11World) run() {
 			// the hub entry of the connect-time subscription exists (Broker.Subscribe is
 			// called right after hub.addSub)
 		}
-		w.op(o, false)
+		w.opw(o, false, true)
 	}
 	before := w.wireLen()
 	w.release <- struct{}{}
@@ -271,11 +289,10 @@ func (w *c11World) run() {
 		w.emit("AWBegin")
 		w.emit("AWEnd")
 	}
-	c := w.client()
-	if c == nil {
-		w.fail("no client after connect")
+	if !w.waitFor("client registered in the hub", func() bool { return w.client() != nil }) {
 		return
 	}
+	c := w.client()
 	w.waitFor("connect to finish", func() bool {
 		c.mu.RLock()
 		defer c.mu.RUnlock()
